@@ -22,7 +22,7 @@ EXPLANATION = (
     "does not depend on the other series in the call; (iv) cascade stage values from results never increase along a nested cascade for stocks >= 0, and cascade values from data equal the sum of the databook entries of each stage's constituents (ad hoc cascade sharing constituents). "
     "Bounds: <= 3 outputs and <= 3 populations per call (all permutations and subsets of those), T = 3. Outside: matplotlib rendering, Excel export files."
 )
-GROUP_TIMEOUT = {"quick": 900, "thorough": 3000}
+GROUP_TIMEOUT = {"quick": 1800, "thorough": 3600}
 
 
 def M12t():
